@@ -43,6 +43,39 @@ def mangle(n):
     return n
 
 
+def mandatory_groups(pattern):
+    """indices (and names) of groups that are set in every successful match of the compiled pattern"""
+    import re._parser as P
+    import re._constants as C
+    tree = P.parse(pattern.pattern, pattern.flags)
+    out = set()
+
+    def walk(sub, sure):
+        for op, av in sub:
+            if op is C.SUBPATTERN:
+                gid, _a, _d, body = av
+                if gid is not None and sure:
+                    out.add(gid)
+                walk(body, sure)
+            elif op in (C.MAX_REPEAT, C.MIN_REPEAT) or getattr(C, 'POSSESSIVE_REPEAT', None) is op:
+                mn, _mx, body = av
+                walk(body, sure and mn >= 1)
+            elif op is C.BRANCH:
+                for b in av[1]:
+                    walk(b, False)
+            elif op in (C.ASSERT, C.ASSERT_NOT):
+                walk(av[1], False)
+            elif op is getattr(C, 'ATOMIC_GROUP', None):
+                walk(av, sure)
+            elif op is C.GROUPREF_EXISTS:
+                for b in av[1:]:
+                    if b is not None:
+                        walk(b, False)
+    walk(tree, True)
+    names = {n for n, i in tree.state.groupdict.items() if i in out}
+    return out, names
+
+
 class FuncSig:
     def __init__(self, modname, name, params, ptypes, defaults, rtype, needs_today, lean_name):
         self.modname = modname
@@ -106,6 +139,8 @@ class FuncTranslator:
         self.loop_depth = 0
         self.uses_today = False
         self.tuple_lits = {}
+        self.match_pat = {}        # python variable name -> compiled pattern its match object came from
+        self.last_pattern = None
 
     # ------------------------------------------------------------------ helpers
     def fresh(self, base):
@@ -149,6 +184,10 @@ class FuncTranslator:
             return '(some %s)' % self.coerce(v, t, opt_inner(want))
         if t == 'bool' and want == 'int':
             return '(if %s then (1 : Int) else 0)' % v
+        if is_opt(t) and opt_inner(t) == want:
+            # passing a possibly-None value where the callee uses it as a T: Python raises AttributeError /
+            # TypeError at the first use; the model raises at the hand-over (both are non-validation errors)
+            return '(← Py.optGet %s)' % par(v)
         if t == 'list[?]' and (is_list(want) or is_dict(want)):
             return '([] : %s)' % lean_type(want)
         if t == 'dict[?,?]' and is_dict(want):
@@ -572,7 +611,7 @@ class FuncTranslator:
                 return ('(← (Py.raise .keyError : R %s))' % par(lean_type(vt)), vt)
             return ('(← Py.dictGet %s %s)' % (par(v), par(self.coerce(kv, kt, k))), vt)
         if t == 'match':
-            return self.match_group(v, [e.slice])
+            return self.match_group(v, [e.slice], e.value)
         raise Unsupported('subscript of ' + t)
 
     def e_Attribute(self, e):
@@ -895,11 +934,14 @@ class FuncTranslator:
             if meth == 'values' and not args:
                 return ('((%s).map (·.2))' % par(v), t_list(vt))
             raise Unsupported('dict method ' + meth)
+        if t == 'opt[match]':
+            # `None.group(...)` raises AttributeError in Python
+            v, t = '(← Py.optGet %s)' % par(v), 'match'
         if t == 'match':
             if meth == 'group':
-                return self.match_group(v, args)
+                return self.match_group(v, args, f.value)
             if meth == 'groups' and not args:
-                return ('(%s).groupsD' % par(v), 'list[str]')
+                return ('(%s).groups' % par(v), 'list[opt[str]]')
             if meth == 'groupdict' and not args:
                 return ('(%s).groupdictD' % par(v), 'dict[str,str]')
             raise Unsupported('match method ' + meth)
@@ -947,6 +989,8 @@ class FuncTranslator:
             lst, et = self.as_list(*args[0])
             if et == 'str':
                 return ('(Py.join %s %s)' % (par(v), par(lst)), 'str')
+            if et == 'opt[str]':
+                return ('(Py.join %s (← (%s).mapM Py.optGetT))' % (par(v), par(lst)), 'str')
             raise Unsupported('join of ' + et)
         if meth == 'index' and n == 1 and args[0][1] == 'str':
             return ('(← Py.index %s %s)' % (par(v), S(0)), 'int')
@@ -971,25 +1015,46 @@ class FuncTranslator:
             raise Unsupported('str.encode')
         raise Unsupported('str method .%s/%d' % (meth, n))
 
-    def match_group(self, v, args):
+    def match_group(self, v, args, recv=None):
+        pat = None
+        if isinstance(recv, ast.Name):
+            pat = self.match_pat.get(recv.id)
+        sure_idx, sure_names = mandatory_groups(pat) if pat is not None else (set(), set())
         if len(args) == 0:
             return ('(← (%s).groupR 0)' % par(v), 'str')
         if len(args) == 1:
             a = args[0]
-            if isinstance(a, ast.Constant) and isinstance(a.value, int):
-                return ('(← (%s).groupR %d)' % (par(v), a.value), 'str')
+            if isinstance(a, ast.Constant) and isinstance(a.value, int) and not isinstance(a.value, bool):
+                if a.value == 0 or a.value in sure_idx:
+                    return ('(← (%s).groupR %d)' % (par(v), a.value), 'str')
+                if pat is not None and not (0 <= a.value <= pat.groups):
+                    return ('(← (Py.raise .indexError : R Str))', 'str')
+                return ('((%s).group %d)' % (par(v), a.value), 'opt[str]')
             if isinstance(a, ast.Constant) and isinstance(a.value, str):
-                return ('(← (%s).groupNamedR %s)' % (par(v), lit_str(a.value)), 'str')
+                if a.value in sure_names:
+                    return ('(← (%s).groupNamedR %s)' % (par(v), lit_str(a.value)), 'str')
+                if pat is not None and a.value not in pat.groupindex:
+                    return ('(← (Py.raise .indexError : R Str))', 'str')
+                return ('((%s).groupNamed %s)' % (par(v), lit_str(a.value)), 'opt[str]')
         raise Unsupported('match.group form')
 
     def regex_method(self, v, meth, e):
+        recv = e.func.value
+        self.last_pattern = None
+        if isinstance(recv, ast.Name) and self.lookup(recv.id) is None:
+            try:
+                obj = self.m.resolve(recv.id)
+                if isinstance(obj, re.Pattern):
+                    self.last_pattern = obj
+            except Unsupported:
+                pass
         args = [self.expr(a) for a in e.args]
         if e.keywords:
             raise Unsupported('regex method keywords')
         if meth in ('match', 'search', 'fullmatch') and len(args) == 1 and args[0][1] == 'str':
             return ('(Re.%s %s %s)' % (meth + '_' if meth == 'match' else meth, par(v), par(args[0][0])), 'opt[match]')
         if meth == 'sub' and len(args) == 2 and args[0][1] == 'str' and args[1][1] == 'str':
-            return ('(← Re.subR %s %s %s)' % (par(v), par(args[0][0]), par(args[1][0])), 'str')
+            return ('(← Re.sub %s %s %s)' % (par(v), par(args[0][0]), par(args[1][0])), 'str')
         if meth == 'findall' and len(args) == 1:
             raise Unsupported('regex findall')
         raise Unsupported('regex method ' + meth)
@@ -1147,7 +1212,13 @@ class FuncTranslator:
     def s_Assign(self, st, ind):
         if len(st.targets) != 1:
             raise Unsupported('chained assignment')
+        self.last_pattern = None
         v, t = self.expr(st.value)
+        if isinstance(st.targets[0], ast.Name) and t in ('match', 'opt[match]'):
+            if self.last_pattern is not None:
+                self.match_pat[st.targets[0].id] = self.last_pattern
+            else:
+                self.match_pat.pop(st.targets[0].id, None)
         return self.assign_to(st.targets[0], v, t, ind)
 
     def s_AugAssign(self, st, ind):
